@@ -11,3 +11,5 @@ def run(ctx):
         blockcamp.run(ctx, "C07", 160 if q else 1600)
         from .. import dwvw
         dwvw.run(ctx, "C07", 120 if q else 1200)
+        from .. import gsm
+        gsm.run(ctx, "C07", 100 if q else 1000)
